@@ -1,4 +1,5 @@
 import XoGen.Src.Grow
+import XoGen.Src.GetFree
 import XoGen.TieChunk
 import XoGen.TieBuf
 /-! `XBuffer.grow` (context.py), translated from /repo on this run - storage, capacity and free list together - IS the model's
@@ -59,5 +60,26 @@ theorem src_grow (b : Buf) (n : Nat) (hcap : b.a.capacity = b.mem.length) :
   · split <;> simp [Buf.grow, Alloc.grow]
   · simp only [growChunksPy] at hch
     split <;> rename_i hc <;> simp only [hc, ↓reduceIte] at hch <;> simp [Buf.grow, Alloc.grow, ← hch]
+
+theorem sum_foldl (xs : List Int) (a : Int) : xs.foldl (· + ·) a = a + xs.foldl (· + ·) 0 := by
+  induction xs generalizing a with
+  | nil => simp
+  | cons x xs ih => simp only [List.foldl_cons]; rw [ih, ih (0 + x)]; omega
+
+/-- **`get_free()` of the source is the model's `getFree`** - the sum of the sizes of the free chunks - for every free list of
+well-formed chunks (start ≤ end: what the allocator invariant `WF` provides) -/
+theorem src_get_free (m : Mem) (cap : Int) (s : AState) (hwf : ∀ c ∈ s.chunks, c.start ≤ c.stop) :
+    XBuffer_get_free ⟨m, cap, s.chunks.map ofChunk⟩ = (getFree s : Int) := by
+  simp only [XBuffer_get_free, Id.run, pure, Py.sum, getFree, List.map_map]
+  generalize s.chunks = cs at hwf
+  induction cs with
+  | nil => simp
+  | cons c cs ih =>
+    have hc := hwf c (by simp)
+    have ih' := ih (fun d hd => hwf d (by simp [hd]))
+    simp only [List.map_cons, List.foldl_cons, List.sum_cons, Function.comp] at ih' ⊢
+    rw [sum_foldl, ih', src_chunk_size c hc]
+    push_cast
+    omega
 
 end XoGen
